@@ -54,6 +54,7 @@ pub struct Probes {
     pub reported_starts_judged: u64,
     pub time_dependent_distance_ambiguous: u64,
     pub commute_legs_compared: u64,
+    pub activity_times_within_stop: u64,
 }
 
 impl Probes {
@@ -63,7 +64,7 @@ impl Probes {
             tours, activities, multi_activity_stops, waiting_acts, tw_tight, cap_tight, dist_limit_tight,
             dur_limit_tight, size_limit_tight, reload_acts, break_acts, tours_too_ambiguous, multi_jobs_assigned, unassigned,
             skipped_time_replay, tags_checked, order_checked, groups_checked, compat_checked, skills_checked,
-            unreachable_checked, relations_checked, resources_checked, shift_latest_tight, open_tours, clustered_acts, recharge_acts, recharge_limit_tight, time_dependent_legs, time_dependent_tolerance_exhausted, reported_starts_judged, time_dependent_distance_ambiguous, commute_legs_compared
+            unreachable_checked, relations_checked, resources_checked, shift_latest_tight, open_tours, clustered_acts, recharge_acts, recharge_limit_tight, time_dependent_legs, time_dependent_tolerance_exhausted, reported_starts_judged, time_dependent_distance_ambiguous, commute_legs_compared, activity_times_within_stop
         );
     }
     pub fn to_json(&self) -> serde_json::Value {
@@ -72,7 +73,7 @@ impl Probes {
             tours, activities, multi_activity_stops, waiting_acts, tw_tight, cap_tight, dist_limit_tight,
             dur_limit_tight, size_limit_tight, reload_acts, break_acts, tours_too_ambiguous, multi_jobs_assigned, unassigned,
             skipped_time_replay, tags_checked, order_checked, groups_checked, compat_checked, skills_checked,
-            unreachable_checked, relations_checked, resources_checked, shift_latest_tight, open_tours, clustered_acts, recharge_acts, recharge_limit_tight, time_dependent_legs, time_dependent_tolerance_exhausted, reported_starts_judged, time_dependent_distance_ambiguous, commute_legs_compared
+            unreachable_checked, relations_checked, resources_checked, shift_latest_tight, open_tours, clustered_acts, recharge_acts, recharge_limit_tight, time_dependent_legs, time_dependent_tolerance_exhausted, reported_starts_judged, time_dependent_distance_ambiguous, commute_legs_compared, activity_times_within_stop
         )
     }
 }
@@ -446,6 +447,19 @@ fn check_tour_inner(m: &PModel, ti: usize, t: &STour, assign: &BTreeMap<usize, u
         || flat.iter().any(|f| f.act.has_commute);
     if unsupported {
         probes.skipped_time_replay += 1;
+    }
+    // an identity inside the document which a tour owes whether its times are replayed or not: the reported time of an
+    // activity lies within the arrival .. departure of the stop which lists it and does not run backwards
+    // (tours with a clustered stop: commutes and parking are written around the activities; 30 tours of a quick batch break
+    // the identity on the unchanged tree, all of them clustered, 16 of them with a flagged commute leg - not judged there)
+    for f in flat.iter().filter(|_| !clustered_tour) {
+        if let (Some(a0), Some(a1)) = (f.act.start, f.act.end) {
+            probes.activity_times_within_stop += 1;
+            let tag = if unsupported { "required-break" } else { "" };
+            if a0 < f.stop.arrival - 1 || a1 > f.stop.departure + 1 || a1 < a0 {
+                out.push(Issue { prop: S, rule: "activity-outside-stop", msg: format!("tour {ti} stop {}: activity '{}' reports {}..{} but the stop lasts {}..{}", f.stop_idx, f.act.job_id, a0, a1, f.stop.arrival, f.stop.departure), tag });
+            }
+        }
     }
 
     // ---- static checks per tour: skills, group/compat sets, order, tour size
@@ -828,7 +842,12 @@ fn check_tour_inner(m: &PModel, ti: usize, t: &STour, assign: &BTreeMap<usize, u
             // still lie before the end of a window of a place the activity can stand for
             if let Some(rep) = rep_start {
                 probes.reported_starts_judged += 1;
-                if cands.iter().all(|c| c.tw.is_some_and(|w| rep as f64 > w.1 as f64 + tol)) {
+                // (which task of a multi-task job an activity stands for was chosen above by replayed times, which are not
+                // reliable in such a tour: every task of this kind with a place at this location counts here)
+                let any_task_fits = job_ref.is_some_and(|ji| {
+                    m.jobs[ji].tasks.iter().filter(|task| task.kind.name() == a.kind).flat_map(|task| task.places.iter()).filter(|p| p.loc == Some(place_loc)).any(|p| p.times.is_empty() || p.times.iter().any(|w| rep as f64 <= w.1 as f64 + tol))
+                });
+                if !any_task_fits && cands.iter().all(|c| c.tw.is_some_and(|w| rep as f64 > w.1 as f64 + tol)) {
                     out.push(Issue { prop: F, rule: "tw-late", msg: format!("tour {ti} ({}): {} '{}' is reported to start at {rep}, after the end of every window of its places at this location", t.vehicle_id, a.kind, a.job_id), tag: if a.has_commute { "cluster-activity" } else { "reported-times" } });
                 }
             }
